@@ -19,3 +19,17 @@ Lemma multi_hash_leaf_pinned_refuted :
   bundle_addrs_pinned d6_name [47] <>
     Some (map (app [47]) (expand [Lit [97]; Enum 2; Lit [47;98]; Enum 3])).
 Proof. repeat split; vm_compute; congruence. Qed.
+
+(* walk_ports_recurse0 before the commit "fix: walk_ports wrote a '/' behind
+   every index ...": the sub-tree name a#2b/ (started below "/") gave the
+   prefixes /a0/b/ and /a1/b/ - addresses the name a#2b/ does not match; the
+   repaired one gives /a0b/, /a1b/ = "/" ++ expand [a; #2; b/] *)
+Definition slash_name : list Z := [97; 35; 50; 98; 47].
+Definition probe (b : list Z) : wres := WOk [([0%nat], b)] b.
+
+Lemma recurse0_slash_pinned_refuted :
+  recurse0_pinned 6 probe slash_name [47] [47] =
+    WOk [([0%nat], [47;97;48;47;98;47]); ([0%nat], [47;97;49;47;98;47])] [47;97;49;47;98;47] /\
+  recurse0 6 probe slash_name [47] [47] =
+    WOk (map (fun a => ([0%nat], 47 :: a)) (expand [Lit [97]; Enum 2; Lit [98; 47]])) [47;97;49;98;47].
+Proof. split; vm_compute; reflexivity. Qed.
